@@ -15,6 +15,7 @@ import (
 	"github.com/mithrandie/csvq/lib/parser"
 	"github.com/mithrandie/csvq/lib/syntax"
 	"github.com/mithrandie/csvq/lib/value"
+	"github.com/mithrandie/csvq/lib/vhook"
 
 	"github.com/mithrandie/go-text"
 	"github.com/mithrandie/go-text/color"
@@ -291,6 +292,7 @@ func RemoveFlagElement(ctx context.Context, scope *ReferenceScope, expr parser.R
 		return err
 	}
 
+	vhook.AwaitMutex("operation", scope.Tx.operationMutex)
 	scope.Tx.operationMutex.Lock()
 	defer scope.Tx.operationMutex.Unlock()
 
@@ -1056,6 +1058,7 @@ func Pwd(expr parser.Pwd) (string, error) {
 }
 
 func Reload(ctx context.Context, tx *Transaction, expr parser.Reload) error {
+	vhook.AwaitMutex("operation", tx.operationMutex)
 	tx.operationMutex.Lock()
 	defer tx.operationMutex.Unlock()
 
